@@ -11,7 +11,9 @@ import (
 	"github.com/ElrondNetwork/elrond-go/config"
 	"github.com/ElrondNetwork/elrond-go/core/queue"
 	"github.com/ElrondNetwork/elrond-go/data"
+	dblock "github.com/ElrondNetwork/elrond-go/data/block"
 	"github.com/ElrondNetwork/elrond-go/data/state"
+	procblock "github.com/ElrondNetwork/elrond-go/process/block"
 
 	"verifsim/simkit"
 	"verifsim/triekit"
@@ -319,10 +321,30 @@ func (r *run) step(st *simkit.Step) {
 		}
 		r.mutOps++
 		r.m = m
+		if !bytes.Equal(rh, r.head().root) { // an unchanged state is not a recurrence of a root value
+			r.allRoots[string(rh)]++
+		}
 		r.blocks = append(r.blocks, blockRec{root: rh, m: m.clone()})
-		r.allRoots[string(rh)]++
 		c.Eventf("%d block #%d root %x", c.CurStep, len(r.blocks)-1, rh)
 		c.FPBytes(rh)
+	case "emptyblock":
+		// a block without any state change: the node still calls Commit
+		if len(r.head().root) == 0 {
+			return // nothing committed yet
+		}
+		rh, err := adb.Commit()
+		if err != nil {
+			c.HarnessErr("Commit failed: %v", err)
+			return
+		}
+		if !bytes.Equal(rh, r.head().root) {
+			c.HarnessErr("an empty block changed the root: %x -> %x", r.head().root, rh)
+			return
+		}
+		r.mutOps++
+		r.blocks = append(r.blocks, blockRec{root: rh, m: r.m.clone()})
+		c.Eventf("%d empty block #%d root %x", c.CurStep, len(r.blocks)-1, rh)
+		c.Probe("empty_block")
 	case "finalize":
 		idx := -1
 		for i := 1; i < len(r.blocks)-1; i++ {
@@ -347,9 +369,8 @@ func (r *run) step(st *simkit.Step) {
 			return
 		}
 		r.arm(st)
+		procblock.VerifPruneStateOnRollback(adb, &dblock.Header{Nonce: uint64(h), RootHash: cur}, &dblock.Header{Nonce: uint64(h - 1), RootHash: prev})
 		if !bytes.Equal(cur, prev) {
-			adb.CancelPrune(prev, data.OldRoot)
-			adb.PruneTrie(cur, data.NewRoot)
 			r.mutOps++
 			if tsm.IsPruningBlocked() {
 				r.bufferedPrunes++
@@ -464,12 +485,18 @@ func (r *run) finalize(idx int, st *simkit.Step) {
 	adb := r.se.ADB
 	r.blocks[idx].final = true
 	root, prev := r.blocks[idx].root, r.blocks[idx-1].root
+	// the REAL baseProcessor.updateStateStorage decides what is queued, cancelled and pruned (through the verif hook);
+	// the lines below only keep the model's books: which block the protocol prunes at this point
+	before := c.Faults["get_error"] + c.Faults["remove_error"]
+	r.arm(st)
+	hdr := &dblock.Header{Nonce: uint64(idx), RootHash: root}
+	procblock.VerifUpdateStateStorage(0, hdr, root, prev, adb, r.q)
+	r.disarm(before)
 	if bytes.Equal(root, prev) {
 		c.Eventf("%d finalize #%d: state unchanged", c.CurStep, idx)
 		return
 	}
-	toPrune := r.q.Add(prev)
-	// which block does the returned root belong to (same FIFO discipline, by position)
+	// which block's root does the protocol prune now (FIFO of the configured size, by position)
 	pruneIdx := -1
 	if r.qSize == 0 {
 		pruneIdx = idx - 1
@@ -480,15 +507,10 @@ func (r *run) finalize(idx int, st *simkit.Step) {
 			r.qIdx = r.qIdx[1:]
 		}
 	}
-	if len(toPrune) == 0 {
+	if pruneIdx < 0 {
 		c.Eventf("%d finalize #%d: root %x queued", c.CurStep, idx, prev)
 		return
 	}
-	before := c.Faults["get_error"] + c.Faults["remove_error"]
-	r.arm(st)
-	adb.CancelPrune(toPrune, data.NewRoot)
-	adb.PruneTrie(toPrune, data.OldRoot)
-	r.disarm(before)
 	r.mutOps++
 	r.prunesAfterChange++
 	if r.se.TSM.IsPruningBlocked() {
@@ -498,7 +520,7 @@ func (r *run) finalize(idx int, st *simkit.Step) {
 	for i := 0; i <= pruneIdx && i < len(r.blocks); i++ {
 		r.blocks[i].dead = true
 	}
-	c.Eventf("%d finalize #%d: prune root %x of block #%d", c.CurStep, idx, toPrune, pruneIdx)
+	c.Eventf("%d finalize #%d: prune root %x of block #%d", c.CurStep, idx, r.blocks[pruneIdx].root, pruneIdx)
 }
 
 func sortedInts(m map[int]*acct) []int {
@@ -585,7 +607,7 @@ func stepName(c *simkit.Ctx) string {
 
 // finalGarbageCheck: second sentence of C09, in runs where it can be decided.
 func (r *run) finalGarbageCheck() {
-	if r.restarted || r.faultFired || r.c.Plan.Arm != "monotone" || r.c.Plan.Knob("buflen", 0) < 1000 {
+	if r.bubble || r.restarted || r.faultFired || r.c.Plan.Arm != "monotone" || r.c.Plan.Knob("buflen", 0) < 1000 {
 		return // restarts, faults and an overflowing pruning buffer legitimately leave garbage behind
 	}
 	for r.blockedBy > 0 {
